@@ -121,7 +121,7 @@ def after_abuse_groups(rng, tier, kinds):
 class _C05(Spec):
     pid = "C05"
     lean_module = "Starcal.Props.C05"
-    src_ties = ["Starcal.SrcTie.Interval"]
+    src_ties = ["Starcal.SrcTie.Interval", "Starcal.SrcTie.Normalize"]
     # the comparator tie not established: the quick tier already enumerates every tie-breaking case (all lists of <=3
     # intervals over 0..6, both end kinds, every order), so no wider sweep is needed
     supports_wide = True
@@ -163,7 +163,7 @@ register(_C05())
 class _C04(Spec):
     pid = "C04"
     lean_module = "Starcal.Props.C04"
-    src_ties = ["Starcal.SrcTie.Interval"]
+    src_ties = ["Starcal.SrcTie.Interval", "Starcal.SrcTie.Normalize"]
     # the comparator tie not established: the quick tier already enumerates every tie-breaking case (all lists of <=3
     # intervals over 0..6, both end kinds, every order), so no wider sweep is needed
     supports_wide = True
@@ -249,6 +249,7 @@ register(_C04())
 class _C13(Spec):
     pid = "C13"
     lean_module = "Starcal.Props.C13"
+    src_ties = ["Starcal.SrcTie.Humanize"]
     expected = "Humanize keeps the set and leaves only half-open intervals and points; Extract(IntervalListByNumList(ns,k)) = ns; ParseInterval(String(i)) = i, ParseIntervalList(String(l)) = l; reversed interval text rejected"
     rule = ("line protocol: `show`/`parse` for every well-formed interval with end points in [-40,40] and seeded |x| < 2^62; `showlist`/`parselist` for all "
             "lists of <=3 intervals over -3..3 (thorough; <=2 plus samples in quick); `bynum` for every subset of [-5,5] and seeded strictly increasing lists from "
